@@ -45,8 +45,11 @@ def config_class(af, bf, rf):
 class Rig:
     """All blocks that accept the configuration, on shared input wires."""
 
-    def __init__(self, af, bf, rf):
+    def __init__(self, af, bf, rf, flags=(1, 1, 1, 1)):
+        # flags = widths of the (gt, eq, lt, sign) output wires: a flag wire wider than one bit is legal (the value is
+        # zero-extended into it), so the reference for it is the same 0/1 masked to the wire
         import py4hw
+        self.flags = tuple(flags)
         self.af, self.bf, self.rf = tuple(af), tuple(bf), tuple(rf)
         self.same = self.af == self.bf == self.rf
         hw = py4hw.HWSystem()
@@ -57,8 +60,8 @@ class Rig:
             py4hw.FixedPointMult(hw, 'mul', self.a, self.af, self.b, self.bf, self.rm, self.rf)
             if self.same:
                 self.ra, self.rs = hw.wire('ra', wr), hw.wire('rs', wr)
-                self.sg = hw.wire('sg')
-                self.cmp = [hw.wire(n) for n in ('gt', 'eq', 'lt')]
+                self.sg = hw.wire('sg', self.flags[3])
+                self.cmp = [hw.wire(n, w) for n, w in zip(('gt', 'eq', 'lt'), self.flags[:3])]
                 py4hw.FixedPointAdd(hw, 'add', self.a, self.af, self.b, self.bf, self.ra, self.rf)
                 py4hw.FixedPointSub(hw, 'sub', self.a, self.af, self.b, self.bf, self.rs, self.rf)
                 py4hw.FixedPointSign(hw, 'sgn', self.a, self.af, self.sg)
@@ -76,8 +79,9 @@ class Rig:
         return out
 
 
-def judge(af, bf, rf, x, y, out, stats):
+def judge(af, bf, rf, x, y, out, stats, flags=(1, 1, 1, 1)):
     """Returns (evaluations, violations) for one observed step."""
+    fl = 'all_flags_1_bit' if tuple(flags) == (1, 1, 1, 1) else 'flag_wires_wider_than_1_bit'
     vs = []
     n = 0
     wa, wb, wr = sum(af), sum(bf), sum(rf)
@@ -121,7 +125,8 @@ def judge(af, bf, rf, x, y, out, stats):
     n += 1
     stats['sign'] += 1
     if out['sign'] != (x >> (w - 1)) & 1:
-        vs.append(V('fxp_sign', dict(block='FixedPointSign', config_class=cc, relation='inverted' if out['sign'] in (0, 1) else 'other'),
+        vs.append(V('fxp_sign', dict(block='FixedPointSign', config_class=cc, flag_wires=fl,
+                                     relation='inverted' if out['sign'] in (0, 1) else ('upper_bits_of_flag_wire_set' if out['sign'] & 1 == (x >> (w - 1)) & 1 else 'other')),
                     (x >> (w - 1)) & 1, out['sign'], 'FixedPointSign %s: expected %d observed %d' % (tag, (x >> (w - 1)) & 1, out['sign'])))
     d = sx - sy
     if -(1 << (w - 1)) <= d < (1 << (w - 1)):
